@@ -27,7 +27,7 @@ def one(d):
     checks = out.get('checks', {})
     meta = {
         'breaks_property': prop,
-        'summary': agent.get('summary'), 'needs_to_manifest': agent.get('needs'), 'files': agent.get('files'),
+        'summary': agent.get('summary'), 'needs_to_manifest': agent.get('needs') or agent.get('needs_to_manifest'), 'files': agent.get('files'),
         'origin': 'written by an independent sub-agent that saw only the property text and a scratch worktree of /repo',
         'confirmed': {'existing_tests_with_patch': out.get('tests'), 'demo_exit_without_patch': out.get('demo_without'),
                       'demo_exit_with_patch': out.get('demo_with')},
